@@ -102,8 +102,86 @@ class C18(Prop):
                 break
         return v
 
+    def gen_dense_online(self, rng):
+        from fractions import Fraction as Fr
+        from rtverif.props.c04 import sig_text
+        law = rng.choice(PAST_LAWS[:-1])           # the since expansion needs s_prev (discrete time only)
+        c = lang.dense_cfg(rng, future=False)
+        c.max_depth = min(c.max_depth, 2)
+        c.untyped = 0.3                             # bare variables as operands: nothing swallows a repeated sample
+        p = lang.gen_phi(rng, c, rng.randint(0, c.max_depth))
+        q = lang.gen_phi(rng, c, rng.randint(0, c.max_depth))
+        i1, i2 = lang.gen_interval(rng, c), lang.gen_interval(rng, c)
+        names = sorted(set(lang.variables(p) + lang.variables(q))) or ['x']
+        n = rng.randint(2, 8)
+        base = lang.gen_signal(rng, n=n, start=Fr(0))
+        sig = dict((k, [(t, rng.choice(lang.SMALL)) for (t, _) in base]) for k in names)
+        cuts = sorted(rng.sample(range(1, n), rng.randint(1, n - 1))) if n > 1 else []
+        return {'law': law, 'kind': 'ct_online', 'p': lang.to_jsonable(p), 'q': lang.to_jsonable(q),
+                'i1': [float(x) for x in i1], 'i2': [float(x) for x in i2], 'signals': sig_text(sig), 'cuts': cuts,
+                'repeat_frontier': rng.random() < 0.5}
+
+    def judge_dense_online(self, case):
+        from fractions import Fraction as Fr
+        from rtverif import ref_dense
+        from rtverif.props.c04 import sig_from_json
+        v = Verdict()
+        case = dict(case)
+        case['i1'] = [Fr(x).limit_denominator(64) for x in case['i1']]
+        case['i2'] = [Fr(x).limit_denominator(64) for x in case['i2']]
+        lhs, rhs = self._sides(case)
+        sig = sig_from_json(case['signals'])
+        names = sorted(sig)
+        try:
+            el, er = ref_dense.evaluate(lhs, sig), ref_dense.evaluate(rhs, sig)
+        except ref.Undefined:
+            v.skip = 'reference undefined (domain error)'
+            return v
+        rel = max(rel_for(lhs), rel_for(rhs))
+        v.info['law:%s/ct_online' % case['law']] = 1
+        n = len(sig[names[0]])
+        bounds = [0] + list(case['cuts']) + [n]
+
+        def run(f):
+            m = drive.Mon('ct', {'text': lang.to_text(f), 'vars': names})
+            out = []
+            for a, b in zip(bounds, bounds[1:]):
+                a2 = a - 1 if (case.get('repeat_frontier') and a > 0) else a
+                out += m.update(*[[k, [[float(t), val] for t, val in sig[k][a2:b]]] for k in names])
+            return out
+        try:
+            a = run(lhs)
+            b = run(rhs)
+        except Exception as e:
+            v.bad('raises:' + type(e).__name__, '%s | %s (dense online, cuts %s): raised %s: %s' % (
+                lang.to_text(lhs), lang.to_text(rhs), case['cuts'], type(e).__name__, e))
+            return v
+        fa = [s for s in a if s[0] == s[0] and abs(s[0]) != float('inf')]
+        fb = [s for s in b if s[0] == s[0] and abs(s[0]) != float('inf')]
+        if not fa or not fb:
+            return v
+        lo = max(ref_dense.Q(fa[0][0]), ref_dense.Q(fb[0][0]), Fr(0))
+        hi = min(ref_dense.Q(fa[-1][0]), ref_dense.Q(fb[-1][0]), sig[names[0]][-1][0])
+        v.nontrivial = len(case['cuts']) >= 1 and hi > lo
+        if hi < lo:
+            return v
+        for t in ref_dense.probe_times(el, list(fa) + list(fb), lo, hi):
+            if el.at(t) != el.at(t) or er.at(t) != er.at(t):
+                continue
+            x, y = ref_dense.out_value(a, t), ref_dense.out_value(b, t)
+            if x is None or y is None or not ref.same(x, y, rel):
+                v.bad('law:' + case['law'], 'dense online monitor (cuts %s, repeated frontier=%s), law %s: %s gives %r but '
+                      '%s gives %r at t=%s; signals=%s' % (case['cuts'], case.get('repeat_frontier'), case['law'],
+                                                          lang.to_text(lhs), x, lang.to_text(rhs), y, float(t),
+                                                          case['signals']))
+                break
+        return v
+
     def gen(self, rng, ctx):
-        if rng.random() < 0.25:
+        r0 = rng.random()
+        if r0 < 0.15:
+            return self.gen_dense_online(rng)
+        if r0 < 0.4:
             return self.gen_dense(rng)
         kind = rng.choice(['dt_offline', 'dt_offline', 'dt_online'])
         law = rng.choice(PAST_LAWS if kind == 'dt_online' else LAWS)
@@ -124,7 +202,7 @@ class C18(Prop):
 
     def brief(self, case):
         c = dict(case)
-        if case['kind'] == 'ct_offline':
+        if case['kind'] in ('ct_offline', 'ct_online'):
             return c
         l, r = self._sides(case)
         c['lhs'], c['rhs'] = lang.to_text(l), lang.to_text(r)
@@ -148,6 +226,8 @@ class C18(Prop):
     def judge(self, case):
         if case['kind'] == 'ct_offline':
             return self.judge_dense(case)
+        if case['kind'] == 'ct_online':
+            return self.judge_dense_online(case)
         v = Verdict()
         lhs, rhs = self._sides(case)
         data = case['data']
